@@ -315,21 +315,49 @@ def parserCall (W : DataWorld V) (L : Legacy) (o : Opts) (P : ParserDecl V) (dat
   raiseError
   pure r
 
-/-! ### generated `__init__` and init_dataclass — cls.py:482-500, 551-591 -/
+/-! ### declared and running options — options.py:219-258
 
-/-- `Schema(**kwargs)` / `DataClass(**kwargs)`: parse, then attributes, then the developer's
-`__post_init__` / `__validate__` hook (`postInit`, a parameter: it is not the library's code) -/
+A parser *declares* options (`cls.__options__`); a parse *runs* with the options of its RuntimeContext.  They
+differ when options are given for one call (`Cls.__from__(data, options=...)`, `init_dataclass(..., options=...)`)
+or pushed down by an enclosing context whose options say `override=True`.  Every `handle_error` consults the
+running options; `raise_error` consults none: whatever was collected is raised. -/
+
+/-- `Options.make_context(cls, context=ctx)`: the options the new context runs with -/
+def makeContextOpts (self : Opts) (ctx : Option Opts) : Opts :=
+  match ctx with
+  | some c => if !self.override && c.override then c else self
+  | none => self
+
+/-- init_dataclass (cls.py:575-578): `options.make_context(...)` when options are given for the call, else
+`parser.make_context(...)` with the declared ones -/
+def runningOpts (declared : Opts) (given : Option Opts) (ctx : Option Opts) : Opts :=
+  makeContextOpts (given.getD declared) ctx
+
+/-! ### generated `__init__` and init_dataclass — cls.py:499-517, 568-608; schema.py:109-110, 275-281 -/
+
+/-- the generated `__init__` body once the context is fixed: parse (BaseParser.__call__ ends with an unconditional
+`context.raise_error()`), then `set_attributes`, then post-init: the developer's `__validate__`/`__post_init__`
+(`postInit`, a parameter: not the library's code) and — for a `Schema` — one more `context.raise_error()`
+(schema.py:281).  `o` are the RUNNING options. -/
 def classInit (W : DataWorld V) (L : Legacy) (o : Opts) (P : ParserDecl V) (postInit : M Unit)
-    (kwargs : List (Nat × V)) : M (List (Nat × V)) := do
+    (kwargs : List (Nat × V)) (schema : Bool := false) : M (List (Nat × V)) := do
   let values ← parserCall W L o P kwargs
   emit .attrsSet
   postInit
   emit .postInit
+  if schema then raiseError else pure ()
   pure values
 
-/-- `cls.__from__(data)` / `init_dataclass(cls, data)` -/
-def initDataclass (W : DataWorld V) (L : Legacy) (o : Opts) (P : ParserDecl V) (postInit : M Unit)
-    (data : V) : M (List (Nat × V)) := do
+/-- `Cls(**kwargs)`: no `__context__` yet, so the context is made from the DECLARED options (cls.py:502-504) -/
+def classCall (W : DataWorld V) (L : Legacy) (declared : Opts) (P : ParserDecl V) (postInit : M Unit)
+    (kwargs : List (Nat × V)) (schema : Bool := false) : M (List (Nat × V)) :=
+  classInit W L (makeContextOpts declared none) P postInit kwargs schema
+
+/-- `cls.__from__(data, options)` / `init_dataclass(cls, data, options, context)` / the registered converter of a
+data class (`transform_dataclass`, with the enclosing context): everything below runs with `runningOpts` -/
+def initDataclass (W : DataWorld V) (L : Legacy) (declared : Opts) (given ctx : Option Opts) (P : ParserDecl V)
+    (postInit : M Unit) (data : V) (schema : Bool := false) : M (List (Nat × V)) := do
+  let o := runningOpts declared given ctx
   let d ← tryExcept (do
       let d ← if W.isMapping data then pure data
         else if o.noExplicitCast then raise (builtinExc K.typeError)
@@ -337,7 +365,7 @@ def initDataclass (W : DataWorld V) (L : Legacy) (o : Opts) (P : ParserDecl V) (
       if o.castKeywordStr then W.castKeys d else pure d)
     (fun e => raise (wrap Site.initDataclass e))
   let kwargs ← W.unpack d
-  classInit W L o P postInit kwargs
+  classInit W L o P postInit kwargs schema
 
 /-! ### FunctionParser — func.py:576-712, 933-954 -/
 
